@@ -80,6 +80,7 @@ def make_parts():
     # binary tree and red-black tree
     try:
         from checks.c01 import C01
+        from checks.treelib import deep_cases as T_deep
 
         class TreeClear(C01):
             pid = 'C15'
@@ -94,8 +95,10 @@ def make_parts():
 
             def random_cases(self, tier, seed):
                 cs = C01.random_cases(self, tier, seed)
-                return [Case(c.name, c.header, c.ops + ['clear', 'size', 'insert 0', 'insert 1', 'clear'], 'random')
-                        for c in cs[: (100 if tier == 'quick' else 800)]]
+                out = [Case(c.name, c.header, c.ops + ['clear', 'size', 'insert 0', 'insert 1', 'clear'], 'random')
+                       for c in cs[: (100 if tier == 'quick' else 800)]]
+                out += T_deep()
+                return out
         parts.append(TreeClear())
     except ImportError:
         pass
